@@ -109,9 +109,13 @@ impl BackwardEngine {
         let mut goal = QueryParser::parse(query_str)
             .map_err(|e| crate::errors::RuleEngineError::ParseError { message: e })?;
 
+        // The verdict depends on the facts passed in as well as on the query text:
+        // key the memo cache by both (computed now, before the search derives new facts)
+        let memo_key = Self::memo_key(query_str, facts);
+
         // Check cache if memoization enabled
         if self.config.enable_memoization {
-            if let Some(cached) = self.goal_manager.is_cached(query_str) {
+            if let Some(cached) = self.goal_manager.is_cached(&memo_key) {
                 return Ok(if cached {
                     QueryResult::success(
                         goal.bindings.to_map(), // Convert Bindings to HashMap
@@ -159,7 +163,7 @@ impl BackwardEngine {
         // Cache result if enabled
         if self.config.enable_memoization {
             self.goal_manager
-                .cache_result(query_str.to_string(), search_result.success);
+                .cache_result(memo_key, search_result.success);
         }
 
         // Build query result
@@ -181,6 +185,17 @@ impl BackwardEngine {
         } else {
             QueryResult::failure(self.find_missing_facts(&goal), stats)
         })
+    }
+
+    /// Memoisation key: the query text plus a rendering of the facts it is asked on
+    fn memo_key(query_str: &str, facts: &Facts) -> String {
+        let mut entries: Vec<String> = facts
+            .get_all_facts()
+            .iter()
+            .map(|(name, value)| format!("{}={:?}", name, value))
+            .collect();
+        entries.sort();
+        format!("{}|{}", query_str, entries.join(";"))
     }
 
     /// Find all candidate rules that could prove a goal
